@@ -5,8 +5,9 @@ import itertools
 
 from .. import harness as H
 from ..gprog import NODEFAULT, Edge, GNode, GProg
-from ..hist import Instance, run_op
-from ..monitors import V, View, mon_c02, mon_c03
+from ..hist import Instance
+from ..hist import run_op as _run_op
+from ..monitors import V, View, mon_c02, mon_c03, mon_c06
 from ..sched import selection_set
 from ..spaces import shard_iter
 
@@ -28,6 +29,14 @@ def dag_of(name: str, is_async: bool):
         nodes = (GNode(setup=True), GNode(edges=(Edge(0, "pos"), PX, PY)), GNode(edges=(Edge(1, "pos", ("k",)),), res="m"))
         f = 1
     return GProg(nodes=nodes, mc=2, is_async=is_async, params=(("x", NODEFAULT), ("y", 7))), f
+
+
+def run_op(acc, c, names, inst, kind, *a, **k):
+    """calls and executors created NOW are also judged by the priority rule (a reconfiguration between two calls must show in the
+    order of the next call); an executor object created earlier keeps whatever tables it was built with (not specified)"""
+    if kind in ("call", "executor"):
+        k.setdefault("monitors", (mon_c02, mon_c03, mon_c06))
+    return _run_op(acc, c, names, inst, kind, *a, **k)
 
 
 DAGS = ["linear", "diamond", "setup"]
@@ -193,8 +202,10 @@ def run_hist(acc, c):
             if not ok:
                 acc.violation(V("compose_call", f"history {names}: composed DAG call gave {res.outcome} {res.value!r} {res.exc!r}"), dict(c, history=names), (), res.trace, p.source())
         elif k in (9, 10):
-            pr = {i_: {"priority": (0 if k == 9 else (j * 3) % 5)} for j, i_ in enumerate(ids)}
+            pr = {i_: {"priority": (0 if k == 9 else (j * 2) % 7)} for j, i_ in enumerate(ids)}
             inst.d.config_from_dict({"nodes": pr})
+            from dataclasses import replace as _rep
+            inst.prog = _rep(inst.prog, nodes=tuple(_rep(nd, prio=(0 if k == 9 else (j * 2) % 7)) for j, nd in enumerate(inst.prog.nodes)))
         elif k == 11:
             if original is None:
                 original = inst
